@@ -1077,11 +1077,9 @@ func (s *State) evalForInteger(fe *ast.ForExpression, start *int64, end int64, n
 	if ptr != nil && endValue > startValue {
 		// The loop variable is a variable of the program: once the loop is left (normally, by break, return or an error)
 		// it holds the value it had in the last iteration, like it does when it isn't kept in a register.
+		env := s.env // (while a panic unwinds s.env is still the environment of whatever panicked.)
 		defer func() {
-			if r := recover(); r != nil {
-				panic(r)
-			}
-			s.env.Set(name, object.Integer{Value: *ptr})
+			env.Set(name, object.Integer{Value: *ptr})
 		}()
 	}
 	for i := startValue; i < endValue; i++ {
